@@ -8,7 +8,8 @@
        resolve_msg) is caught by Parser's blanket handler: decoding is switched off (s_parse :=
        false) and an error line is printed ([log_message_caught]);
      - commands: matcher text is either accepted or rejected with an error line; int() after `~`
-       prints an error line; where the model does not follow (non-ASCII int text, matcher recursion
+       prints an error line; a first word made only of colour sequences is ignored (it tripped an
+       assertion before the repair of D13, which the model had treated as out of model); where the model does not follow (non-ASCII int text, matcher recursion
        deeper than the fuel, more than [command_fuel] = 200 `w` / `wl` prefixes, which stands for
        Python's recursion limit: the recorded finding D9) the step emits [OOM], never [ORaise]
        ([deep_prefix_is_oom]);
@@ -236,7 +237,7 @@ Proof.
         pose proof (get_command'_nr on x) as H; destruct (get_command' on x) as [cmd errs] end.
       cbn [snd] in H. destruct cmd; cbn [fst]; nr. }
   destruct first as [|c0 t0].
-  - destruct second as [|d0 u0]; [|cbn [fst]; nr]. apply G. unfold error_line. nr.
+  - destruct second as [|d0 u0]; [|apply IH]. apply G. unfold error_line. nr.
   - apply G. constructor.
 Qed.
 
